@@ -1,8 +1,28 @@
-import Octo.Model.TriggerGroupBy
-/-! # C16 — placeholder while the pipeline is brought up -/
+import Octo.Lemmas.TriggerGroupBy
+/-!
+# C16 — Triggers change when results appear, never what the final result is
+
+Property: for every GROUP BY, every input stream and every TRIGGER combination (COUNTING n, ON WATERMARK,
+ON END OF STREAM, in any combination) the consolidated output at end of stream equals the plain batch
+grouping of the input.
+
+Model: `Octo.Model.Triggers` (`execution/triggers.go`, `physical/triggers.go`) and
+`Octo.Model.TriggerGroupBy` (`execution/nodes/custom_trigger_group_by.go` behind the `EventTimeBuffer`),
+tied to the code by the exact-output correspondence run of every check.  `wl` is
+`watermarkTriggerKey.Less`: `wlessFixed` is the code as it stands (after the `fix:` commit), `wlessRaw`
+the code as it was shipped.
+-/
 namespace Octo.C16
 open Octo Octo.Trig
 
-theorem placeholder : True := trivial
+/-- **Triggers are transparent.**  For every trigger configuration containing at least one primitive trigger
+    (any nesting of `MultiTrigger`, any `n`), every aggregate list, every key/argument expressions with keys
+    of a fixed length and *every* message list `B` handed to the node (valid or not): the consolidated
+    output at end of stream is the table the node holds — one row per key present in the `aggregates` tree —
+    which does not depend on the trigger. -/
+theorem trigger_transparent (C : GBConf) (nk : Nat) (hK : KeyLen C nk) (hlive : C.cfg.live = true)
+    (B : List Msg) (row : Row) :
+    net (recs (gbRun wlessFixed C B)) row = tableOf C nk (aggsAfter C (recs B)) row :=
+  out_eq_table wlessFixed_laws hK hlive B row
 
 end Octo.C16
